@@ -252,9 +252,14 @@ def cell_values(rng, n, nospace=False):
     return out
 
 
-def gen_program(rng):
-    """a per-record program over fields a..e: (Coq ract terms, mlr chain, keys present afterwards)"""
+def gen_program(rng, allkeys=None):
+    """a per-record program over fields a..e: (Coq ract terms, mlr chain, origin) where origin maps every field present
+    afterwards to the INPUT field whose value it still carries (renames move values, never assign them), or None once a
+    statement assigned it.  Names that existed earlier in the program (renamed away / removed) stay candidate targets of
+    later assignments, renames and lookups."""
     present = list(KEYS)
+    origin = {k: k for k in (allkeys or (["id"] + KEYS))}
+    gone = []
     racts, chain = [], []
     newi = [0]
 
@@ -273,7 +278,7 @@ def gen_program(rng):
             chain.append(verb)
         elif r < 0.62 and present:
             k = rng.choice(present)
-            new = newkey()
+            new = rng.choice(gone) if gone and rng.random() < 0.3 else newkey()
             dk = rng.randrange(14)
             sfx = rng.choice(["a", "_x", "0"])
             expr, d = [(f'typeof(${k})', "DTypeof"), (f'asserting_not_null(typeof(${k}))', "DTypeof"), (f'${k} . "{sfx}"', "(DDotSuffix %s)" % coq_bytes(sfx.encode())),
@@ -282,30 +287,43 @@ def gen_program(rng):
                        (f'fmtifnum(${k}, "%.2lf")', "DOpaque"), (f'toupper(${k})', "DOpaque"), (f'is_string(${k})', "DOpaque"), (f'${k} ?? "dflt"', "DOpaque")][dk]
             racts.append("RDerive %s [UType] %s %s" % (coq_bytes(k.encode()), d, coq_bytes(new.encode())))
             chain.append(["put", f'${new} = {expr}'])
-            present.append(new)
+            if new not in present:
+                present.append(new)
+            if new in gone:
+                gone.remove(new)
+            origin[new] = None
         elif r < 0.70:
-            k = rng.choice(present + ["zz"])
+            k = rng.choice(present + gone + gone + ["zz"])
             v = rng.choice(["X", "0x10", "007", "1.50", ""])
             racts.append("RPut %s %s" % (coq_bytes(k.encode()), coq_bytes(v.encode())))
             chain.append(["put", f'${k} = "{v}"'])
             if k not in present:
                 present.append(k)
+            if k in gone:
+                gone.remove(k)
+            origin[k] = None
         elif r < 0.78:
-            k = rng.choice(present + ["zz"])
+            k = rng.choice(present + gone + ["zz"])
             racts.append("RRemove %s" % coq_bytes(k.encode()))
             chain.append(rng.choice([["put", f'unset ${k}'], ["cut", "-x", "-f", k]]))
             if k in present:
                 present.remove(k)
+                gone.append(k)
+                origin.pop(k, None)
         elif r < 0.88:
-            old = rng.choice(present + ["zz"])
-            new = rng.choice(present + ["r1", "r2"])
+            old = rng.choice(present + gone + ["zz"])
+            new = rng.choice(present + gone + ["r1", "r2"])
             racts.append("RRename %s %s" % (coq_bytes(old.encode()), coq_bytes(new.encode())))
             chain.append(["rename", f"{old},{new}"])
-            if old in present:
+            if old in present and old != new:
                 if new in present:
                     present.remove(old)
                 else:
                     present[present.index(old)] = new
+                origin[new] = origin.pop(old)
+                gone.append(old)
+                if new in gone:
+                    gone.remove(new)
         else:
             k = rng.choice(present + ["zz"])
             if rng.random() < 0.5:
@@ -314,7 +332,7 @@ def gen_program(rng):
             else:
                 racts.append("RMoveToTail %s" % coq_bytes(k.encode()))
                 chain.append(["reorder", "-e", "-f", k])
-    return racts, chain
+    return racts, chain, origin
 
 
 def chain_args(chain):
@@ -363,17 +381,37 @@ def program_correspondence(ctx, props_ok):
     plans = []
     for pi in range(nprog):
         flag = rng.choice(FLAGS)
-        racts, chain = gen_program(rng)
+        # record width: Mlrmap switches representation (lazily built key index) at 12 fields; both regimes and the boundary
+        npad = rng.choice(PAD_WIDTHS)
+        pads = ["w%d" % j for j in range(npad)]
+        ctx.dist("program_record_width:%d" % (1 + len(KEYS) + npad))
+        # repeated field names on the input line (reader: RecordArena.PutDeferred): default a, a_2, ...; with
+        # --no-dedupe-field-names the first position keeps the last value
+        dups = rng.sample(KEYS + pads, rng.choice([1, 1, 2])) if rng.random() < 0.3 else []
+        dedupe = rng.random() < 0.4
+        ctx.dist("program_repeated_names:%s" % ("none" if not dups else "dedupe" if dedupe else "no-dedupe"))
         nrec = 8
-        recs = []
+        lines, recs = [], []
         for i in range(nrec):
-            vals = cell_values(rng, len(KEYS))
+            vals = cell_values(rng, len(KEYS) + npad + len(dups))
             if rng.random() < 0.3:
                 vals[rng.randrange(len(vals))] = rng.choice(EQ_VALUES)      # a DKVP value containing the pair separator
-            recs.append([(b"id", b"r%d" % i)] + [(k.encode(), v) for k, v in zip(KEYS, vals)])
-        plans.append((flag, racts, chain, recs, dkvp(recs), FLAGARGS[flag] + chain_args(chain)))
+            fields = [(k.encode(), v) for k, v in zip(KEYS + pads, vals)]
+            if npad:
+                rng_state_free_shuffle(fields, pi)                           # pads interleaved with a..e
+            for j, dk in enumerate(dups):                                    # the repeat comes after the first occurrence
+                first = [x for x, (k, _) in enumerate(fields) if k == dk.encode()][0]
+                fields.insert(first + 1 + (pi + j) % (len(fields) - first), (dk.encode(), vals[len(KEYS) + npad + j]))
+            line = [(b"id", b"r%d" % i)] + fields
+            lines.append(line)
+            recs.append(ref_read(line, dedupe or not dups))
+        racts, chain, origin = gen_program(rng, [k.decode() for k, _ in recs[0]])
+        margs = [] if (dedupe or not dups) else ["--no-dedupe-field-names"]
+        plans.append((flag, racts, chain, recs, dkvp(lines), margs + FLAGARGS[flag] + chain_args(chain), origin, lines, dedupe or not dups))
     results = pmap_mlr(ctx, [(p[5], p[4]) for p in plans])
-    for (flag, racts, chain, recs, inp, args), (st, out, err) in zip(plans, results):
+    flow_reported = 0
+    for (flag, racts, chain, recs, inp, args, origin, lines, dedupe), (st, out, err) in zip(plans, results):
+        line_of = {r[0][1]: l for r, l in zip(recs, lines)}
         ctx.dist("program_len:%d" % len(chain))
         if st != 0:
             ctx.violation({"broken": "pipeline run failed", "kind": "program", "args": args, "stdin": inp.decode("latin1"), "status": st, "stderr": err.decode("latin1")[-500:]},
@@ -390,8 +428,26 @@ def program_correspondence(ctx, props_ok):
                 ctx.violation({"broken": "oracle: a per-record program lost or duplicated a record", "kind": "program", "args": args, "stdin": inp.decode("latin1"),
                                "record_id": r[0][1].decode(), "observed_count": len(o), "class": "program-record-count"})
                 continue
-            terms.append("(%d, %s, %s, %s)" % (FLAGN[flag], coq_list(racts), coq_record(r), coq_record(o[0])))
+            terms.append("(%d, %s, %s, %s, %s)" % (FLAGN[flag], coq_bool(dedupe), coq_list(racts), coq_record(line_of[r[0][1]]), coq_record(o[0])))
             meta.append((flag, args, r, o[0], racts))
+            # ---- property oracle on the implementation's own output (value flow): every field whose value no statement
+            # assigned (renames move values, they do not assign them) carries the bytes of the input field it came from,
+            # and no field is missing or extra
+            rin, rout = dict(r), dict(o[0])
+            wrong = [(k, rin[src.encode()].decode("latin1"), rout.get(k.encode(), b"(missing)").decode("latin1")) for k, src in origin.items()
+                     if src is not None and rout.get(k.encode()) != rin[src.encode()]]
+            extra = [k.decode("latin1") for k in rout if k.decode("latin1") not in origin]
+            missing = [k for k in origin if k.encode() not in rout]
+            if (wrong or extra or missing) and flow_reported < 3:
+                flow_reported += 1
+                ln = line_of[r[0][1]]
+                ctx.violation({"broken": "oracle: a value that no statement assigned did not arrive unchanged under the name the chain gave it",
+                               "kind": "program", "flag": flag, "args": args, "stdin": dkvp([ln]).decode("latin1"), "stdin_hex": dkvp([ln]).hex(),
+                               "input_record": [(k.decode(), v.decode("latin1")) for k, v in r],
+                               "observed_record": [(k.decode(), v.decode("latin1")) for k, v in o[0]],
+                               "unassigned_fields_changed(name, expected, observed)": wrong, "unexpected_fields": extra, "missing_fields": missing,
+                               "changed_fields": [(k, w) for k, w, _ in wrong],
+                               "class": "unassigned-field-changed:program"})
     if meta:
         m = meta[0]
         ctx.sample({"kind": "program", "flag": m[0], "args": m[1], "input_record": [(k.decode(), v.decode("latin1")) for k, v in m[2]],
@@ -399,7 +455,7 @@ def program_correspondence(ctx, props_ok):
     if not props_ok:
         return
     with ctx.timed("coq_cases"):
-        bad, err = coq_eval_mismatches(ctx, "C03prog", "Base.Record C06.Model C03.Model C03.Harness", "prog_case", "chk_prog", terms, shard=len(terms) // 2 + 1)
+        bad, err = coq_eval_mismatches(ctx, "C03prog", "Base.Record C06.Model C03.Model C03.Harness", "prog_case2", "chk_prog2", terms, shard=len(terms) // 2 + 1)
     ctx.cov["correspondence"]["record_programs"] = {"cases": len(terms), "mismatches": len(bad)}
     if err:
         ctx.violation({"broken": "correspondence-evaluation C03prog", "detail": err[-2000:]}, found_input=False)
@@ -418,9 +474,42 @@ def program_correspondence(ctx, props_ok):
             ctx.violation(dict(rep, broken="correspondence C03.Harness.chk_prog (model and implementation differ; no unassigned field changed)"), found_input=False)
 
 
+def ref_read(line, dedupe):
+    """the record a reader builds from the (key, value) pairs of one line (reference-main-flag-list.md, --no-dedupe-field-names:
+    'By default, if an input file has a field named x appearing more than once, the second is renamed x_2, and so on. With this
+    flag provided, the second x's value will replace the first x's value')"""
+    rec = []
+    for k, v in line:
+        ks = [x[0] for x in rec]
+        if k not in ks:
+            rec.append([k, v])
+        elif dedupe:
+            i = 2
+            while k + b"_%d" % i in ks:
+                i += 1
+            rec.append([k + b"_%d" % i, v])
+        else:
+            rec[ks.index(k)][1] = v
+    return [tuple(x) for x in rec]
+
+
+PAD_WIDTHS = [0, 0, 0, 3, 5, 6, 7, 9, 14, 30]      # + id + a..e: 6, 9, 11, 12, 13, 15, 20, 36 fields
+
+
+def rng_state_free_shuffle(fields, salt):
+    """deterministic interleaving (does not consume ctx.rng): rotate by salt, then riffle"""
+    n = len(fields)
+    k = salt % n
+    rot = fields[k:] + fields[:k]
+    fields[:] = rot[::2] + rot[1::2]
+
+
 # ---- the oracle over a wide pool of verbs: (argv, keys the verb may assign/remove, keys it may move)
-def verb_pool(rng, keys):
+def verb_pool(rng, keys, allkeys=None):
+    """keys: the fields verbs are pointed at; allkeys: every non-id field of the records (verbs that drop or move the
+    fields they do not name are given all of them)"""
     k, k2 = rng.sample(keys, 2)
+    allk = list(allkeys or keys)
     pool = [
         (["cat"], [], []), (["tac"], [], []), (["head", "-n", "100"], [], []), (["tail", "-n", "100"], [], []), (["group-like"], [], []),
         (["group-by", k], [], []), (["regularize"], [], []), (["unsparsify"], [], []), (["unsparsify", "--fill-with", "X"], [], []),
@@ -446,16 +535,16 @@ def verb_pool(rng, keys):
         (["nest", "--explode", "--values", "--across-records", "-f", k, "--nested-fs", ";"], [k], []),
         (["nest", "--explode", "--values", "--across-fields", "-f", k, "--nested-fs", ";"], [k], [k]),
         (["reorder", "-f", k], [], [k]), (["reorder", "-e", "-f", f"{k},{k2}"], [], [k, k2]), (["rename", f"{k},renamed"], [k, "renamed"], []),
-        (["rename", "-r", f"^{k}$,renamed"], [k, "renamed"], []), (["cut", "-x", "-f", k], [k], []), (["cut", "-o", "-f", ",".join(["id"] + keys[::-1])], [], keys + ["id"]),
+        (["rename", "-r", f"^{k}$,renamed"], [k, "renamed"], []), (["cut", "-x", "-f", k], [k], []), (["cut", "-o", "-f", ",".join(["id"] + allk[::-1])], [], allk + ["id"]),
         (["having-fields", "--at-least", k], [], []), (["cat", "-n", "-g", k], ["n"], []), (["cat", "-N", "idx"], ["idx"], []), (["nl"], None, []),
         (["sec2gmt", "-3", "nosuch"], [], []), (["sec2gmtdate", "nosuch"], [], []), (["top", "-n", "100", "-f", k, "-a"], [], []),
         (["top", "-n", "100", "-f", k2, "-g", k, "-a", "--min"], [], []), (["decimate", "-n", "1"], [], []), (["sec2str", "nosuch", "%Y"], None, []),
-        (["label", "id"], [], []), (["sort-within-records"], [], keys + ["id"]),
+        (["label", "id"], [], []), (["sort-within-records"], [], allk + ["id"]),
         (["seqgen", "--start", "1", "--stop", "0", "then", "cat"], None, []),
         (["fraction", "-f", "nosuch"], [], []), (["histogram", "-f", "nosuch", "--lo", "0", "--hi", "1", "--nbins", "1"], None, []),
         (["json-stringify", "-f", "nosuch"], [], []), (["utf8-to-latin1"], None, []), (["gap", "-n", "1000"], [], []), (["grep", "-i", "r"], [], []),
         (["sec2gmt", k], "sec2gmt:" + k, []), (["altkv"], None, []), (["bar", "-f", "nosuch", "--lo", "0", "--hi", "1"], None, []),
-        (["unspace"], None, []), (["fill-empty", "--only-if-blank"], None, []), (["template", "-f", ",".join(["id"] + keys)], [], []),
+        (["unspace"], None, []), (["fill-empty", "--only-if-blank"], None, []), (["template", "-f", ",".join(["id"] + allk)], [], []),
         (["split-join", "nosuch"], None, []), (["case", "-u", "-k", "-f", "nosuch"], None, []), (["sparsify", "-f", "nosuch"], [], []),
         (["summary", "-a", "minlen", "--transpose"], None, []), (["tee", "/dev/null"], [], []),
     ]
@@ -587,7 +676,7 @@ def build_chain(rng, recs, flag, sep_safe=False):
     chain, wset, mset = [], set(), set()
     for _ in range(rng.randint(1, 3)):
         while True:
-            argv, w, mv = rng.choice(verb_pool(rng, KEYS))
+            argv, w, mv = rng.choice(verb_pool(rng, KEYS, [k.decode("latin1") for k, _ in recs[0] if k != b"id"]))
             if not sep_safe:
                 break
             name = " ".join(argv[:2]) if argv[0] == "cut" and "-o" in argv else argv[0]
@@ -620,9 +709,14 @@ def standard_plans(ctx, nruns):
         col_pool = cell_values(rng, 14, nospace)
         if ifmt == "dkvp":
             col_pool += [rng.choice(EQ_VALUES) for _ in range(5)]       # DKVP values containing the pair separator
+        pads = ["w%d" % j for j in range(rng.choice(PAD_WIDTHS))]          # widths on both sides of Mlrmap's key-index threshold
+        ctx.dist("pipeline_record_width:%d" % (1 + len(KEYS) + len(pads)))
         for i in range(nrec):
-            vals = [rng.choice(col_pool) if rng.random() < 0.5 else cell_values(rng, 1, nospace)[0] for _ in KEYS]
-            recs.append([(b"id", b"r%d" % i)] + [(k.encode(), v) for k, v in zip(KEYS, vals)])
+            vals = [rng.choice(col_pool) if rng.random() < 0.5 else cell_values(rng, 1, nospace)[0] for _ in KEYS + pads]
+            fields = [(k.encode(), v) for k, v in zip(KEYS + pads, vals)]
+            if pads:
+                rng_state_free_shuffle(fields, ri)
+            recs.append([(b"id", b"r%d" % i)] + fields)
         if ofmt == "markdown":
             recs = [[(k, v.replace(b"|", b"!")) for k, v in r] for r in recs]
         chain, wset, mset = build_chain(rng, recs, flag)
@@ -693,13 +787,43 @@ def separator_plans(ctx, nruns):
     return plans
 
 
+def repeated_name_plans(ctx, nruns):
+    """input lines / headers in which a field name occurs more than once, with and without --no-dedupe-field-names, over
+    narrow and wide records: the record the reader builds is given by the documentation (ref_read); every field of it
+    that the chain does not assign must come out with its bytes"""
+    rng = ctx.rng
+    plans = []
+    for ri in range(nruns):
+        flag = rng.choice(FLAGS)
+        ifmt = ["dkvp", "csv", "tsv"][ri % 3]
+        ofmt = rng.choice(["dkvp", "csv", "tsv"])
+        dedupe = (ri // 3) % 2 == 0
+        pads = ["w%d" % j for j in range(rng.choice(PAD_WIDTHS))]
+        names = [b"id"] + [k.encode() for k in KEYS + pads]
+        for dk in rng.sample(KEYS + pads, rng.choice([1, 1, 2, 3])):
+            first = names.index(dk.encode())
+            names.insert(rng.randint(first + 1, len(names)), dk.encode())      # the last field of the line may be the repeat
+        nrec = rng.randint(3, 9)
+        lines = []
+        for i in range(nrec):
+            vals = cell_values(rng, len(names) - 1, nospace=True)
+            lines.append([(b"id", b"r%d" % i)] + list(zip(names[1:], vals)))
+        recs = [ref_read(l, dedupe) for l in lines]
+        chain, wset, mset = build_chain(rng, recs, flag, sep_safe=True)
+        args = ([] if dedupe else ["--no-dedupe-field-names"]) + FLAGARGS[flag] + ["--i" + ifmt, "--o" + ofmt] + chain_args(chain)
+        plans.append({"flag": flag, "ifmt": ifmt + ("-repeated-names" if dedupe else "-repeated-names-nodedupe"), "ofmt": ofmt, "recs": recs, "chain": chain,
+                      "wset": wset, "mset": mset, "inp": render_input(ifmt, lines), "args": args, "parse": (lambda out, f=ofmt: parse_output(f, out)), "ext": "dat"})
+    return plans
+
+
 def pipeline_oracle(ctx):
     """read-only chains over every spelling class x inference flags x non-JSON writers: unassigned cells byte-identical, same relative order"""
     nruns = 200 if ctx.tier == "quick" else 6000
     nsep = 90 if ctx.tier == "quick" else 2400
     checked_cells = 0
     reported = 0
-    plans = standard_plans(ctx, nruns) + separator_plans(ctx, nsep)
+    nrep = 60 if ctx.tier == "quick" else 1200
+    plans = standard_plans(ctx, nruns) + separator_plans(ctx, nsep) + repeated_name_plans(ctx, nrep)
     results = pmap_mlr(ctx, [(p["args"], p["inp"]) for p in plans])
     for p, (st, out, err) in zip(plans, results):
         flag, ifmt, ofmt, recs, chain, wset, mset, inp, args = (p[k] for k in ("flag", "ifmt", "ofmt", "recs", "chain", "wset", "mset", "inp", "args"))
@@ -756,7 +880,7 @@ def pipeline_oracle(ctx):
                                    "stdin_hex": inp.hex(), "record_id": rid.decode(), "expected_order": [k.decode("latin1") for k in stay],
                                    "observed_order": [k.decode("latin1") for k in got], "input_variant": ifmt, "output_format": ofmt,
                                    "class": "unassigned-field-order:" + "+".join(sorted({c[0] for c in chain}))})
-    ctx.cov["pipeline_oracle"] = {"runs": nruns, "separator_runs": nsep, "cells_compared": checked_cells}
+    ctx.cov["pipeline_oracle"] = {"runs": nruns, "separator_runs": nsep, "repeated_name_runs": nrep, "cells_compared": checked_cells}
 
 
 def run(ctx):
@@ -779,7 +903,7 @@ def run(ctx):
     ctx.cov["correspondence"] = {}
     c06.gen_tables(ctx)
     forbidden_gate(ctx, ["Base", "C03"])
-    ok, why = check_props(ctx, "C03/Props.v", ["C03/Harness.vo", "C03/RecordProofs.vo", "C03/Proofs.vo"])
+    ok, why = check_props(ctx, "C03/Props.v", ["C03/Harness.vo", "C03/RecordProofs.vo", "C03/Proofs.vo", "C03/MovedProofs.vo", "C03/VerbProofs.vo", "C03/ReaderProofs.vo"])
     nviol = len(ctx.violations)
     ops_correspondence(ctx, ok)
     method_sweep(ctx)
